@@ -440,8 +440,8 @@ def bodyReader (codecs : Alg → Codec) (site : Site) (src : Src) : BodyKind →
   | .gunzip =>
     match site with
     | .h1 => ⟨h1GzipReader (codecs .gzip), H1GzState.init src⟩
-    | _ => ⟨lazyReader (codecs .gzip), LazyState.init src⟩
-  | .decode a => ⟨lazyReader (codecs a), LazyState.init src⟩
+    | _ => ⟨lazyReader (codecs .gzip) (keeps .gzip), LazyState.init src⟩
+  | .decode a => ⟨lazyReader (codecs a) (keeps a), LazyState.init src⟩
 
 /-- What the body means, independently of how it is read and of the stack. -/
 def delivered (codecs : Alg → Codec) (src : Src) (k : BodyKind) : Bytes × Term :=
@@ -529,14 +529,14 @@ theorem sticky_error (codecs : Alg → Codec) (site : Site) (src : Src) (k : Bod
 underlying body) is returned by the first `Read` and by every later one, whatever the buffer
 sizes (zero included), and no byte is ever produced -/
 theorem constructor_error_sticky (C : Codec) (src : Src) (e : Term) (h : C.openR src = .error e)
-    (ns : List Nat) :
-    lazyRun C (LazyState.init src) (ns.map Op.read) = ns.map (fun _ => ([], some e)) ∧
+    (keep : Bool) (ns : List Nat) :
+    lazyRun C keep (LazyState.init src) (ns.map Op.read) = ns.map (fun _ => ([], some e)) ∧
     h1gzRun C (H1GzState.init src) (ns.map Op.read) = ns.map (fun _ => ([], some e)) := by
   cases ns with
   | nil => simp [lazyRun, h1gzRun]
   | cons n ns =>
     have hl : ∀ (st : LazyState C), st.zerr = some e → ∀ ms : List Nat,
-        lazyRun C st (ms.map Op.read) = ms.map (fun _ => ([], some e)) := by
+        lazyRun C keep st (ms.map Op.read) = ms.map (fun _ => ([], some e)) := by
       intro st hz ms
       induction ms with
       | nil => simp [lazyRun]
@@ -554,16 +554,38 @@ theorem constructor_error_sticky (C : Codec) (src : Src) (e : Term) (h : C.openR
       rw [hh _ rfl rfl]
 
 /-- `GzipReader.Close` then `Read`: `fs.ErrClosed`, always, no data -/
-theorem closed_sticky (C : Codec) (st : LazyState C) (ns : List Nat) :
-    lazyRun C st (Op.close :: ns.map Op.read) = ns.map (fun _ => ([], some errClosed)) := by
+theorem closed_sticky (C : Codec) (keep : Bool) (st : LazyState C) (ns : List Nat) :
+    lazyRun C keep st (Op.close :: ns.map Op.read) = ns.map (fun _ => ([], some errClosed)) := by
   simp only [lazyRun]
   have : ∀ (st : LazyState C), st.zerr = some errClosed →
-      lazyRun C st (ns.map Op.read) = ns.map (fun _ => ([], some errClosed)) := by
+      lazyRun C keep st (ns.map Op.read) = ns.map (fun _ => ([], some errClosed)) := by
     intro st hz
     induction ns with
     | nil => simp [lazyRun]
     | cons m ms ih => simp [lazyRun, lazyRead, hz, ih]
   exact this _ rfl
+
+/-- **kept_error_sticky** — a wrapper that records every error (`BrotliReader` after
+fixes/C14-4) is sticky BY ITSELF, for every buffer size (zero included): once a `Read` has
+returned an error, every later `Read` returns no data and that error without consulting the
+decoder again — no assumption on the decoder's own stickiness is used. -/
+theorem kept_error_sticky (C : Codec) (st : LazyState C) (n : Nat) (t : Term)
+    (h : (lazyRead C true st n).2.2 = some t) (ms : List Nat) :
+    lazyRun C true (lazyRead C true st n).1 (ms.map Op.read) = ms.map (fun _ => ([], some t)) := by
+  have hz : (lazyRead C true st n).1.zerr = some t := by
+    revert h
+    unfold lazyRead
+    split
+    · rename_i e hz; intro h; simp at h; subst h; exact hz
+    · split
+      · intro h; simpa using h
+      · split
+        · intro h; simp at h; subst h; rfl
+        · intro h; simpa using h
+  generalize (lazyRead C true st n).1 = st' at hz
+  induction ms with
+  | nil => simp [lazyRun]
+  | cons m ms ih => simp [lazyRun, lazyRead, hz, ih]
 
 /-- **delivered_original** — end to end: whenever the decision installs a decoder and the body
 is the encoding of a payload under a codec with the round-trip law, the caller reads exactly
@@ -620,7 +642,7 @@ example :
       (bodyReader toyCodecs .h2 ⟨[3, 7, 1], .eof⟩ .gunzip).s [2, 2, 2]).2
       = ([7, 7, 7], some (.err 1)) := by decide
 example :
-    lazyRun Toy.codec (LazyState.init ⟨[3, 7, 1], .eof⟩) [.read 2, .read 2, .read 2, .read 1, .close, .read 1]
+    lazyRun Toy.codec false (LazyState.init ⟨[3, 7, 1], .eof⟩) [.read 2, .read 2, .read 2, .read 1, .close, .read 1]
       = [([7, 7], none), ([7], some (.err 1)), ([], some (.err 1)), ([], some (.err 1)), ([], some (.err 3))] := by
   decide
 
